@@ -78,6 +78,12 @@ func cmdC04(seed uint64, tier, outdir string) {
 		}
 	}
 	ins = append(ins, genericInputs(r, docs, n)...)
+	for k := 0; k < 4+n/5; k++ {
+		d := docs[r.intn(len(docs))]
+		if len(d.text) < 6000 {
+			ins = append(ins, input{"long-partial+broken-full:" + d.name, partialPlusBrokenFull(r, d.text)})
+		}
+	}
 	for _, d := range docs {
 		if d.name == "WTFPL" {
 			ins = append(ins, input{"identical-docs:" + d.variant, d.text})
@@ -168,6 +174,45 @@ func cmdC04(seed uint64, tier, outdir string) {
 			} else {
 				vw.printf("VIOL - %s: repeated Match on the same classifier and bytes: %s\n", target.name, verdict)
 			}
+		}
+	}
+	// a license name matched by two inducedPhrases keys (BSD and BSD-3-Clause-Attribution): the input drops a
+	// stretch containing both key phrases, and the text after it mentions only one of them; the answer must
+	// not depend on which key the map iteration visits first
+	for k := 0; k < 3+n/10; k++ {
+		fill := func(m int) []string {
+			var ws []string
+			for i := 0; i < m; i++ {
+				ws = append(ws, synthVocab[r.intn(40)])
+			}
+			return ws
+		}
+		a, mid, b := fill(25+r.intn(20)), fill(r.intn(8)), fill(30+r.intn(30))
+		gone := []string{"acknowledgment", "bsd"}
+		if r.chance(1, 2) {
+			gone = []string{"bsd", synthVocab[r.intn(40)], "acknowledgment"}
+		}
+		later := "bsd"
+		if r.chance(1, 4) {
+			later = "acknowledgment"
+		}
+		doc := strings.Join(a, " ") + " " + strings.Join(gone, " ") + " " + strings.Join(mid, " ") + " " + later + " " + strings.Join(b, " ")
+		in := []byte(strings.Join(a, " ") + " " + strings.Join(mid, " ") + " " + later + " " + strings.Join(b, " "))
+		c := classifier.NewClassifier(0.8)
+		c.AddContent("License", "BSD-3-Clause-Attribution", "license.txt", []byte(doc))
+		first := fmtResults(c.Match(in))
+		ow.printf("%s\n", first)
+		cw.printf("two-key-name:%s|%s %s\n", strings.Join(gone, "+"), later, quoteBytes(in, 300))
+		verdict := ""
+		for rep := 0; rep < 40 && verdict == ""; rep++ {
+			if got := fmtResults(c.Match(in)); got != first {
+				verdict = fmt.Sprintf("call %d returned %s, first call %s", rep+1, got, first)
+			}
+		}
+		if verdict == "" {
+			vw.printf("OK 1\n")
+		} else {
+			vw.printf("VIOL - BSD-3-Clause-Attribution: repeated Match on the same classifier and bytes: %s\n", verdict)
 		}
 	}
 	// known finding: growing the dictionary (Normalize of other text, or an unrelated document) with the
